@@ -73,10 +73,13 @@ fn check(name: &str, input: &[Val], outs: &[Vec<Vec<Val>>]) -> Option<(&'static 
             let mut prev: Vec<(i64, i64)> = vec![];
             for (t, (batch, snap)) in outs[0].iter().zip(outs[1].iter()).enumerate() {
                 for x in batch {
+                    // (key, values of that key in this slice, in order)
                     let k = x.tuple()[0].int();
+                    let Val::L(vs) = &x.tuple()[1] else { return Some(("slice_cardinality", format!("slice {t}: malformed row {x:?}"))) };
+                    let rows = vs.iter().map(|v| e4_gen::val::vt2(e4_gen::val::vi(k), v.clone()));
                     match got.iter_mut().find(|e| e.0 == k) {
-                        Some(e) => e.1.push(x.clone()),
-                        None => got.push((k, vec![x.clone()])),
+                        Some(e) => e.1.extend(rows),
+                        None => got.push((k, rows.collect())),
                     }
                 }
                 let cur: Vec<(i64, i64)> = sorted(snap.clone()).iter().map(|e| e.pair()).collect();
